@@ -32,6 +32,14 @@ pub fn run(ctx: &Ctx, out: &mut Out) {
         let goals: Vec<String> = (0..8).map(|_| if graph { graph_goal(pg.rng, gn) } else { goal_text(&pg.ground_goal(&prog, 2)) }).collect();
         jobs.push((text, goals, graph));
     }
+    // provisional-result motif (see progen::provisional_program), inductive and coinductive
+    let nprov = ctx.budget(100, 4000);
+    for i in 0..nprov {
+        let mut rng = ctx.rng(4, i as u64);
+        let co = rng.chance(1, 2);
+        let (text, _n, goals) = provisional_program(&mut rng, co);
+        jobs.push((text, goals, true));
+    }
     for (text, goals, graph) in jobs {
         let (_db, program) = match lower_program(&text, chalk_integration::SolverChoice::slg_default()) {
             Ok(x) => x,
